@@ -3,7 +3,7 @@ from expr import fmt, walk
 from harness import Skip
 from guards import phi_defs, block_conditions, SWAP
 import poly as polymod
-from rules.common import adapters_in, calls_named, req, strip, S, find_rel_edges
+from rules.common import adapters_in, calls_named, req, strip, S, find_rel_edges, closure_ret_in_parent
 
 INFO = {
     "explanation": "Static transcription rules over MIR: each private sampler layer is compared, as a reconstructed term/CFG shape, with "
@@ -103,7 +103,7 @@ def run_uniform(ctx):
         dr = Call("div_rem", Local(2), Lit(32))
         q = Field(dr, name="0")
         r = Field(dr, name="1")
-        words = S(Call("to_usize", Bin("Add", q, S(Bin("Gt", r, Lit(0))), commutative=True)))
+        words = S(Call("to_usize", Bin("Add", q, S(Cmp("Gt", r, Lit(0))), commutative=True)))
         rds = [rd for rd in g.retdefs if rd.expr is not None]
         good = len(rds) == 1 and Call("new")(rds[0].expr)
         data = rds[0].expr[2][0] if good else None
@@ -134,9 +134,15 @@ def run_uniform(ctx):
         ctx.require_guard(rule, f, "Ge", Local(1), Local(2), desc="low >= high -> Err(EmptyRange)")
         acc = g.accept_defs(("err",))
         good = len(acc) == 1 and acc[0].payload is not None and acc[0].payload[0] == "agg"
+        BASE = LEN = None
         if good:
-            flds = dict(zip(acc[0].payload[3], acc[0].payload[2]))
-            good = Local(1)(flds.get("base", ("unk",))) and Bin("Sub", Local(2), Local(1))(flds.get("len", ("unk",)))
+            # the two (private) fields are identified by what the constructor stores in them, not by their names
+            for name, val in zip(acc[0].payload[3], acc[0].payload[2]):
+                if Local(1)(strip(val)):
+                    BASE = name
+                elif Bin("Sub", Local(2), Local(1))(strip(val)):
+                    LEN = name
+            good = BASE is not None and LEN is not None and len(acc[0].payload[2]) == 2
         req(ctx, rule, "%s:%s:range" % (rule, f.id), good, "UniformBigUint { base: low, len: high - low }",
             "UniformBigUint::new does not store base = low and len = high - low", loc=f.loc)
         f = ctx.fn(rule, name="new_inclusive", self_adt="dp::rand_bigint::UniformBigUint")
@@ -149,7 +155,7 @@ def run_uniform(ctx):
         f = ctx.fn(rule, name="sample", self_adt="dp::rand_bigint::UniformBigUint")
         g = ctx.guards(f)
         rds = [rd for rd in g.retdefs if rd.expr is not None]
-        good = len(rds) == 1 and Bin("Add", Field(Local(1), "base"), Call("random_biguint_below", Local(2), Field(Local(1), "len")), commutative=True)(rds[0].expr)
+        good = len(rds) == 1 and BASE is not None and Bin("Add", Field(Local(1), BASE), Call("random_biguint_below", Local(2), Field(Local(1), LEN)))(rds[0].expr)
         req(ctx, rule, "%s:%s" % (rule, f.id), good, "sample = base + random_biguint_below(rng, len)",
             "UniformBigUint::sample is not base + uniform[0, len)", loc=f.loc)
     except Skip:
@@ -261,7 +267,7 @@ def run_geometric(ctx):
     good = len(z) == 1 and z[0].leads and all(rd.expr is not None and zero(rd.expr) for rd in z[0].leads)
     req(ctx, rule, K + "zero", good, "gamma == 0 -> 0", "the gamma == 0 shortcut does not return 0", loc=f.loc)
     usample = Call("sample", S(Call("new", zero, t)), RNG)
-    te = truth_edges(g, Call("sample_bernoulli_exp1", Call("new", AnyLocal(), t), RNG))
+    te = truth_edges(g, Call("sample_bernoulli_exp1", Call("new", Or(AnyLocal(), usample), t), RNG))
     tt = [e for e in te if e.cond[2] is True]
     ff = [e for e in te if e.cond[2] is False]
     good = len(tt) == 1 and len(ff) == 1
@@ -269,10 +275,16 @@ def run_geometric(ctx):
     if good:
         uterm = tt[0].cond[1][2][0][2][0]
         lp = g.loop_of(tt[0].block)
-        defs = phi_defs(g, uterm[1]) if uterm[0] == "phi" else []
-        good = lp is not None and len(defs) == 2 and all(usample(d[0]) for d in defs) and \
-            any(d[2] not in lp[1] for d in defs) and any(d[2] in lp[1] and b.dominates(ff[0].target, d[2]) for d in defs) and \
-            not returns_from(b, ff[0].target, lp[0]) and not [x for x in b.reach_from(tt[0].target) if x == lp[0]]
+        leaves = lp is not None and not returns_from(b, ff[0].target, lp[0]) and not [x for x in b.reach_from(tt[0].target) if x == lp[0]]
+        if uterm[0] == "phi":
+            # `let mut u = draw(); while !accept(u) { u = draw(); }`: both definitions are draws, the second on the reject edge
+            defs = phi_defs(g, uterm[1])
+            good = leaves and len(defs) == 2 and all(usample(d[0]) for d in defs) and \
+                any(d[2] not in lp[1] for d in defs) and any(d[2] in lp[1] and b.dominates(ff[0].target, d[2]) for d in defs)
+        else:
+            # `let u = loop { let c = draw(); if accept(c) { break c } }`: one draw per iteration, inside the loop
+            draws = [bi for bi, c in calls_named(ctx, f, "sample") if c == uterm]
+            good = leaves and usample(uterm) and len(draws) == 1 and draws[0] in lp[1] and b.dominates(draws[0], tt[0].block)
     req(ctx, rule, K + "u-rejection", good, "u uniform on [0, t); redrawn until bernoulli_exp1(u / t) succeeds",
         "u is not drawn uniformly from [0, denom) and redrawn until Bernoulli(exp(-u/t)) accepts", loc=f.loc)
     te2 = truth_edges(g, Call("sample_bernoulli_exp1", one, RNG))
@@ -402,15 +414,15 @@ def run_gaussian(ctx):
                     oks += 1
         good = oks == 2 and len(defs) == 2
         if good and clos is not None:
-            cf = ctx.prog.by_did.get(clos[3])
-            cg = ctx.guards(cf)
-            crd = [rd for rd in cg.retdefs if rd.expr is not None]
-            sg = Or(Upvar("sigma"), Upvar("*sigma"))
-            want = Bin("Mul", Call("pow", Local(2), Lit(2)), Call("recip", Bin("Mul", Call("pow", sg, Lit(2)), S(Lit(2)), commutative=True)), commutative=True)
-            alt = Bin("Div", Call("pow", Local(2), Lit(2)), Bin("Mul", Call("pow", sg, Lit(2)), S(Lit(2)), commutative=True))
-            good = len(crd) == 1 and (want(crd[0].expr) or alt(crd[0].expr))
+            # the closure's value with captured values substituted (computed inside the closure or hoisted out of it)
+            cr = closure_ret_in_parent(ctx, clos)
+            sg = S(sigma)
+            two_s2 = Bin("Mul", S(Call("pow", sg, Lit(2))), S(Lit(2)))
+            want = Bin("Mul", Call("pow", Local(2), Lit(2)), S(Call("recip", S(two_s2))))
+            alt = Bin("Div", Call("pow", Local(2), Lit(2)), S(two_s2))
+            good = cr is not None and (want(cr) or alt(cr))
             if not good:
-                detail = [fmt(r.expr)[:200] for r in crd]
+                detail = [fmt(cr)[:200] if cr else None]
     req(ctx, rule, K + "acceptance", good, "prob = (|y| - sigma^2/t)^2 / (2 sigma^2), with the subtraction ordered by the comparison",
         "the acceptance probability is not exp(-( |y| - sigma^2/t )^2 / (2 sigma^2)): %s" % detail, loc=f.loc)
     ctx.floor(rule, 3)
